@@ -19,7 +19,7 @@ func init() {
 			"R3": "no lost update between additive top-ups and an absolute settlement write",
 			"R4": "start stack = PlayerStates[k].Bankroll for k = elem(GamePlayerIndexes), no arithmetic",
 			"R5": "one top-up store per call, not in a loop",
-			"R6": "departures only drop: the leave computation stores to no TablePlayerState field; no append onto a truncated re-slice of a list the function did not allocate (in-place filtering of the live player list)",
+			"R6": "departures only drop: the leave computation stores to no TablePlayerState field; no append onto a truncated re-slice of a list the function did not allocate (in-place filtering of the live player list); after a departure during a hand the hand's index list is re-mapped through id → position in the NEW player list (as C02.R4), so results keep being credited to their owners",
 		},
 		Assumptions: []string{"pokerface results are zero-sum and Final = stack at start + Changed"},
 		Run:         checkC01,
@@ -273,6 +273,8 @@ func checkC01(c *Ctx) {
 	}
 	c.Min("R6", "leave computations", n6, 1)
 	checkInPlaceFilter(c, "R6")
+	// a departure during a hand must leave every hand entry pointing at the same player (results are credited through them)
+	checkLeaveRemap(c, "R6")
 }
 
 func containsAny(s string, subs ...string) bool {
